@@ -60,6 +60,8 @@ structure St where
   tops : Option (List Nat) := none
   /-- TOC index of every chunk, computed once per layer -/
   tocIdx : Option (Std.HashMap ChunkId Nat) := none
+  /-- the chunk cache between operations (the model's `Cache` is the lookup function of this map) -/
+  cm : Std.HashMap ChunkId Bytes := {}
 
 def St.file? (s : St) (fi : Nat) : Option DFile := s.files.find? (·.info.id = fi)
 
@@ -102,12 +104,19 @@ def St.env (s : St) : Env where
       | .mem => preRunMemWith (s.tops.getD []) s.toc ti
       | .db => preRunDb s.toc ti
 
-/-- The model's cache is a function; between operations the driver keeps it as a hash map over the
-layer's chunk ids so that lookups do not walk a chain of closures. -/
-def St.normalize (s : St) (c : Cache) : Cache :=
-  let m : Std.HashMap ChunkId Bytes :=
-    s.allIds.foldl (fun m id => match c id with | some d => m.insert id d | none => m) {}
+/-- The model's cache is a function; between operations the driver keeps it as a hash map so that
+lookups do not walk a chain of closures. -/
+def St.cache (s : St) : Cache :=
+  let m := s.cm
   fun id => m[id]?
+
+/-- Take over the cache an operation of the model returned: the ids whose entry changed (in
+(file, off) order) and the updated map. -/
+def St.absorb (s : St) (c' : Cache) : St × List ChunkId :=
+  let old := s.cm
+  let changed := s.allIds.filter fun id => old[id]? != c' id
+  let m := changed.foldl (fun m id => match c' id with | some d => m.insert id d | none => m.erase id) old
+  ({ s with cm := m }, changed)
 
 def St.under (s : St) (ok : Bool) : Under :=
   if ok then fun id => some (s.trueChunk id) else fun _ => none
@@ -120,11 +129,6 @@ def St.layer (s : St) : Layer where
 
 def showIds (ids : List ChunkId) : String :=
   if ids.isEmpty then "-" else ",".intercalate (ids.map fun i => s!"{i.file}:{i.off}:{i.size}")
-
-/-- ids whose entry changed between two caches, in (file, off) order (`allIds` is in that order
-because the harness announces the files by increasing index and chunks by offset). -/
-def St.changed (s : St) (before after : Cache) : List ChunkId :=
-  s.allIds.filter fun id => before id != after id
 
 def parseChunks? (str : String) : Option (List Chunk) :=
   if str = "-" then some [] else
@@ -215,11 +219,10 @@ def step (s : St) : List String → St × String
       match s.file? fi with
       | none => (s, "bad-op")
       | some f =>
-        let (c', r) := fileReadAt s.env (s.under u) f.info s.ls.cache off n
-        let c' := s.normalize c'
-        let s' := { s with ls := { s.ls with cache := c' } }
+        let (c', r) := fileReadAt s.env (s.under u) f.info s.cache off n
+        let (s', changed) := s.absorb c'
         match r with
-        | .ok b => (s', s!"ok k={b.length} sum={fnv b} stored={showIds (s.changed s.ls.cache c')}")
+        | .ok b => (s', s!"ok k={b.length} sum={fnv b} stored={showIds changed}")
         | .err => (s', "err")
         | .diverge => (s', "diverge")
     | _, _, _, _ => (s, "bad-op")
@@ -230,26 +233,27 @@ def step (s : St) : List String → St × String
       let filter : Nat → Bool := match lim with
         | none => fun _ => true
         | some l => fun o => decide (o < l)
-      let (c', ok) := cacheFiltered s.env (s.under u) filter (s.files.map (·.info)) s.ls.cache
-      let c' := s.normalize c'
-      let s' := { s with ls := { s.ls with cache := c' } }
-      (s', if ok then s!"ok stored={showIds (s.changed s.ls.cache c')}" else "err")
+      let (c', ok) := cacheFiltered s.env (s.under u) filter (s.files.map (·.info)) s.cache
+      let (s', changed) := s.absorb c'
+      (s', if ok then s!"ok stored={showIds changed}" else "err")
     | _, _ => (s, "bad-op")
   | ["evict", fi, off, size] =>
     match parseNat? fi, parseNat? off, parseNat? size with
     | some fi, some off, some size =>
-      ({ s with ls := { s.ls with cache := s.normalize (s.ls.cache.evict ⟨fi, off, size⟩) } }, "ok")
+      -- `Cache.evict`
+      ({ s with cm := s.cm.erase ⟨fi, off, size⟩ }, "ok")
     | _, _, _ => (s, "bad-op")
   | ["trunc", fi, off, size, k] =>
     match parseNat? fi, parseNat? off, parseNat? size, parseNat? k with
     | some fi, some off, some size, some k =>
-      ({ s with ls := { s.ls with cache := s.normalize (s.ls.cache.truncate ⟨fi, off, size⟩ k) } }, "ok")
+      -- `Cache.truncate`
+      let id : ChunkId := ⟨fi, off, size⟩
+      ({ s with cm := match s.cm[id]? with | some d => s.cm.insert id (d.take k) | none => s.cm }, "ok")
     | _, _, _, _ => (s, "bad-op")
   | ["setcache", ids] =>
     match parseIds? ids with
     | some ids =>
-      let m : Std.HashMap ChunkId Bytes := ids.foldl (fun m id => m.insert id (s.trueChunk id)) {}
-      ({ s with ls := { s.ls with cache := fun id => m[id]? } }, "ok")
+      ({ s with cm := ids.foldl (fun m id => m.insert id (s.trueChunk id)) {} }, "ok")
     | none => (s, "bad-op")
   | ["tar.reset"] => ({ s with tar := [], view := none }, "ok")
   | ["tent", ty, name, mode, uid, gid, size, link, maj, min, idx, xs] =>
@@ -301,24 +305,25 @@ def step (s : St) : List String → St × String
     | some cfg, some threshold, some chunk, some pchunk, some u =>
       if blobok ≠ "0" ∧ blobok ≠ "1" then (s, "bad-op") else
       let ncalls := s.ls.cacheCalls.length
-      let (ls', r) := prefetch s.layer s.env ⟨chunk, pchunk⟩ cfg threshold (blobok = "1") (s.under u) s.ls
-      let ls' := { ls' with cache := s.normalize ls'.cache }
+      let (ls', r) := prefetch s.layer s.env ⟨chunk, pchunk⟩ cfg threshold (blobok = "1") (s.under u)
+        { s.ls with cache := s.cache }
       let call := match ls'.cacheCalls.drop ncalls with
         | (o, sz) :: _ => s!"{o}:{sz}"
         | [] => "none"
+      let (s', changed) := s.absorb ls'.cache
       -- what a failed walk managed to store is not predicted (the Go walk is concurrent): the harness resyncs
-      let stored := if r = .ok then s!" stored={showIds (s.changed s.ls.cache ls'.cache)}" else ""
-      ({ s with ls := ls' },
+      let stored := if r = .ok then s!" stored={showIds changed}" else ""
+      ({ s' with ls := { ls' with cache := Cache.empty } },
         s!"{if r = .ok then "ok" else "failed"} waiter={b2s ls'.waiterClosed} call={call}{stored}")
     | _, _, _, _, _ => (s, "bad-op")
   | ["bgfetch", u] =>
     let s := s.prepare
     match parseU? u with
     | some u =>
-      let (ls', r) := backgroundFetch s.layer s.env (s.under u) s.ls
-      let ls' := { ls' with cache := s.normalize ls'.cache }
-      let stored := if r = .ok then s!" stored={showIds (s.changed s.ls.cache ls'.cache)}" else ""
-      ({ s with ls := ls' }, s!"{if r = .ok then "ok" else "failed"}{stored}")
+      let (ls', r) := backgroundFetch s.layer s.env (s.under u) { s.ls with cache := s.cache }
+      let (s', changed) := s.absorb ls'.cache
+      let stored := if r = .ok then s!" stored={showIds changed}" else ""
+      ({ s' with ls := { ls' with cache := Cache.empty } }, s!"{if r = .ok then "ok" else "failed"}{stored}")
     | none => (s, "bad-op")
   | ["wait", evs] =>
     let parsed : Option (List WEvent) :=
